@@ -549,7 +549,9 @@ theorem C12_abstract_state_follows (ss : Session) (op : Op) (a a' : Spec.Message
   never rejects: every successful call is accepted by `absOk` (whose `cur`, read off the decoded
   extents, is the cursor: `extents_prefix`), every failed call is `justified`; it equals the final
   `checkSegment` in an abstract state `aF` that describes the final writer state (`AbsNum`) and whose
-  header is the decoded header, Z bits zero (the first clause of `checkSegment`).
+  header is the decoded header, Z bits zero (the first clause of `checkSegment`), and whose question /
+  record lists and item modes are exactly those of the successful calls (`AbsContent`: the lists
+  `C12_refinement_item_modes` compares the decoded message with).
   What remains of `C12_full`: the rest of `checkSegment aF d …` (name equality by mode and
   records — `C12_refinement_item_modes` in the decoder's vocabulary —, TSIG record, size —
   `C12_limit_all_sequences` —, pointer audit — C13), `getters`, and the segments ended by
@@ -562,6 +564,8 @@ theorem C12_walk_reaches_final_check_partial (macFn : Tsig → List UInt8 → Li
     ∃ m mac d aF, finish (run { w := { s0 with mode := mode } } ops).1.w macFn = .ok (m, mac) ∧
       Spec.Message.specDecodeMsg m = some d ∧ AbsNum (run { w := { s0 with mode := mode } } ops).1.w aF ∧
       aF.hdr = d.msg.header ∧ aF.hdr.z = 0 ∧
+      AbsContent aF (bodyRun {} ops (run { w := { s0 with mode := mode } } ops).2)
+        (mrun { w := { s0 with mode := mode } } {} ops) ∧
       Spec.Message.walk false
           { mode := Driver.toSpecMode mode, buflen := buf.size, limit := min limit buf.size }
           (ops.map Driver.toSpecOp)
